@@ -33,12 +33,13 @@ func (r *rnd) pick(xs ...int) int { return xs[r.intn(len(xs))] }
 
 // gen carries generator state for one case.
 type gen struct {
-	r      *rnd
-	keys   [][]byte
-	nextID uint32
-	wb     int
-	bs     int
-	cmp    func(a, b []byte) int
+	r          *rnd
+	keys       [][]byte
+	nextID     uint32
+	wb         int
+	bs         int
+	cmp        func(a, b []byte) int
+	bigJournal bool
 }
 
 func (g *gen) val(maxLen int) V {
@@ -220,6 +221,19 @@ func (g *gen) batch(maxRecs int) []Rec {
 func (g *gen) writeOp(syncP float64) Op {
 	r := g.r
 	var op Op
+	if g.bigJournal && r.p(0.25) {
+		// a batch of 40..100 KiB that stays below the write buffer: one
+		// journal record over several blocks
+		var recs []Rec
+		tot, want := 0, r.rng(40000, 100000)
+		for tot < want {
+			v := g.val(8000)
+			v.Len = r.rng(500, 8000)
+			recs = append(recs, Rec{Key: g.key(), Val: v})
+			tot += v.Len + 16
+		}
+		return Op{K: "write", Recs: recs, Sync: r.p(syncP)}
+	}
 	switch x := r.intn(100); {
 	case x < 55:
 		op = Op{K: "put", Key: g.key(), Val: g.val(g.wb * 2)}
@@ -322,6 +336,10 @@ func (g *gen) txOp() Op {
 	op := Op{K: "tx", Commit: r.p(0.7)}
 	n := r.rng(1, 12)
 	big := r.p(0.25)
+	kept := false
+	if big {
+		n = r.rng(6, 24)
+	}
 	for i := 0; i < n; i++ {
 		switch x := r.intn(100); {
 		case x < 55:
@@ -333,8 +351,17 @@ func (g *gen) txOp() Op {
 			op.Body = append(op.Body, w)
 		case x < 80:
 			op.Body = append(op.Body, Op{K: []string{"get", "has"}[r.intn(2)], Key: g.anyKey(), Via: "tx"})
+		case x < 90 || !kept:
+			it := g.iterOp("tx", 0, 12)
+			if r.p(0.4) {
+				// an iterator that stays open while the transaction grows
+				it.Keep = true
+				it.Slot = 0
+				kept = true
+			}
+			op.Body = append(op.Body, it)
 		default:
-			op.Body = append(op.Body, g.iterOp("tx", 0, 12))
+			op.Body = append(op.Body, Op{K: "iterstep", Slot: 0, Moves: g.moves(r.rng(1, 15))})
 		}
 	}
 	return op
@@ -542,6 +569,12 @@ func GenCase(prop string, seed uint64, thorough bool) *Case {
 		p.wWrite, p.wGet, p.wIter, p.wTx, p.wCompact, p.wReopen, p.wSettle = 35, 10, 3, 30, 3, 4, 4
 	case "C04":
 		p.wWrite, p.wGet, p.wIter, p.wTx, p.wCompact, p.wReopen = 65, 8, 2, 5, 4, 2
+		if r.p(0.15) {
+			// journal records spanning several 32 KiB blocks
+			c.Knobs.WriteBuffer = r.pick(131072, 262144)
+			g.wb = c.Knobs.WriteBuffer
+			g.bigJournal = true
+		}
 		p.syncP = []float64{0.05, 0.3, 0.7}[r.intn(3)]
 		p.ops = [2]int{15, 100 * scale}
 		c.Scenario = "crash"
